@@ -304,6 +304,75 @@ fn frames(out: &mut Out, gen: &mut Gen, thorough: bool) {
     }
 }
 
+/// Commands that have no meaning inside a script (the code refuses them there by design).
+fn script_safe(argv: &Argv) -> bool {
+    let name = String::from_utf8_lossy(&argv[0]).to_uppercase();
+    !["EVAL", "EVALSHA", "SCRIPT", "MULTI", "EXEC", "DISCARD", "WATCH", "UNWATCH", "AUTH", "ACL", "HELLO", "QUIT", "CLIENT", "SELECT", "FUNCTION", ""].contains(&name.as_str())
+}
+
+/// Every command name at arities 0..3 with plain fillers: direct vs redis.pcall on twin executors.
+fn lua_grid(out: &mut Out) {
+    for name in NAMES {
+        for arity in 0..=3usize {
+            for filler in ["k", "1"] {
+                let mut argv: Argv = vec![b(name)];
+                for i in 0..arity {
+                    argv.push(if i == 0 { b("k") } else { b(filler) });
+                }
+                // replies that depend on hash-map order, randomness or the environment differ between twins by nature
+                if !script_safe(&argv) || ["KEYS", "SCAN", "HSCAN", "RANDOMKEY", "SPOP", "INFO", "TIME", "DEBUG", "COMMAND", "CONFIG", "OBJECT", "WAIT", "FLUSHALL", "FLUSHDB"].contains(name) {
+                    continue;
+                }
+                lua_fixed(out, &argv);
+                if arity < 2 {
+                    break;
+                }
+            }
+        }
+    }
+}
+
+fn lua_fixed(out: &mut Out, argv: &Argv) {
+    let run = out.n + 1;
+    let now = 1000u64;
+    let mut twins: Vec<CommandExecutor> = (0..3).map(|_| CommandExecutor::new()).collect();
+    for ex in twins.iter_mut() {
+        ex.set_time(VirtualTime::from_millis(now));
+        // a little state of every type, so that commands find something
+        for pre in [vec![b("SET"), b("s"), b("v")], vec![b("RPUSH"), b("l"), b("a")], vec![b("SADD"), b("st"), b("a")], vec![b("HSET"), b("h"), b("f"), b("1")], vec![b("ZADD"), b("z"), b("1"), b("a")]] {
+            if let Ok(cmd) = parse_argv(&pre) {
+                let _ = ex.execute(&cmd);
+            }
+        }
+    }
+    let j = |r: &Result<RespValue, String>| match r {
+        Ok(v) => rv_json(v),
+        Err(p) => json!({"t": "panic", "b": p.as_bytes(), "a": []}),
+    };
+    let (t1, rest) = twins.split_at_mut(1);
+    let (t2, t3) = rest.split_at_mut(1);
+    let direct = catch(|| match parse_argv(argv) {
+        Ok(cmd) => t1[0].execute(&cmd),
+        Err(e) => RespValue::err(e),
+    });
+    let script = |f: &str, ex: &mut CommandExecutor| {
+        let mut a: Argv = vec![b("EVAL"), b(&format!("return redis.{f}(table.unpack(ARGV))")), b("0")];
+        a.extend(argv.clone());
+        catch(|| match parse_argv(&a) {
+            Ok(cmd) => ex.execute(&cmd),
+            Err(e) => RespValue::err(format!("<frame> {e}")),
+        })
+    };
+    let call = script("call", &mut t2[0]);
+    let pcall = script("pcall", &mut t3[0]);
+    let (ds, cs, ps) = (project(&mut t1[0], now), project(&mut t2[0], now), project(&mut t3[0], now));
+    let canon = |v: &Value| serde_json::to_string(v).unwrap_or_default();
+    out.emit(&json!({"t": "lua", "run": run, "ncmd": 1, "prog": [argv.iter().map(|x| String::from_utf8_lossy(x).to_string()).collect::<Vec<_>>()], "prefix": ["<fixed state>"],
+                     "direct": {"rs": [j(&direct)], "sh": canon(&ds), "sh_first_err": canon(&ds), "s": ds},
+                     "call": {"r": j(&call), "sh": canon(&cs), "s": cs},
+                     "pcall": {"r": j(&pcall), "sh": canon(&ps), "s": ps}}));
+}
+
 /// Twin executors: a program of commands run directly, through redis.call and through redis.pcall.
 fn lua_case(out: &mut Out, gen: &mut Gen) {
     let run = out.n + 1;
@@ -326,7 +395,12 @@ fn lua_case(out: &mut Out, gen: &mut Gen) {
     }
     // the program: 1..3 commands; the script returns the last command's reply
     let ncmd = if gen.rng.gen_bool(0.5) { 1 } else { gen.rng.gen_range(2..4) };
-    let prog: Vec<(Value, Argv)> = (0..ncmd).map(|_| gen.command()).collect();
+    // mostly well-formed commands; some from the failure pool (wrong arity, bad options, unknown names)
+    let prog: Vec<(Value, Argv)> = (0..ncmd).map(|_| if gen.rng.gen_range(0..5) == 0 { gen.other_command() } else { gen.command() }).filter(|(_, a)| script_safe(a)).collect();
+    if prog.is_empty() {
+        return;
+    }
+    let ncmd = prog.len();
     let j = |r: &Result<RespValue, String>| match r {
         Ok(v) => rv_json(v),
         Err(p) => json!({"t": "panic", "b": p.as_bytes(), "a": []}),
@@ -393,6 +467,7 @@ pub fn main(args: &[String]) -> i32 {
     match a.pos.first().map(|s| s.as_str()) {
         Some("frames") => frames(&mut out, &mut gen, a.str("tier", "quick") == "thorough"),
         Some("lua") => {
+            lua_grid(&mut out);
             for _ in 0..a.usize("n", 1000) {
                 lua_case(&mut out, &mut gen);
             }
